@@ -6,6 +6,8 @@ import "github.com/basecomplextech/baselibrary/bin"
 
 func vtr(event string, id bin.Bin128, a, b int64) {}
 
+func vgate(event string) {}
+
 func vnew(ch *channel, id bin.Bin128) {}
 
 func vtrc(event string, ch *channel) {}
